@@ -40,6 +40,8 @@ structure Cfg where
   qmax : Int    -- fixed-window quota (the one `quota_id` names): max
   win  : Nat    -- ... window, in ms
   anc  : List (Int × Nat) := []   -- its ancestors in the quota tree (parent first, root last): (max, window ms)
+  conc : Bool := false            -- the attached quota is a CONCURRENT quota (max = slots; no window; a slot is
+                                  -- given back only by the response, which the scenarios never send)
 deriving Repr
 
 inductive RState | enqueued | processing | processed
@@ -185,6 +187,11 @@ def chainTry : List (Int × Nat) → List Win → Nat → List Win × Bool
 
 /-- `Inc;Allowed(;Dec)` of the attached quota at instant `now`: allowed iff every level has room. -/
 def quotaTry (cfg : Cfg) (q : Quota) (now : Nat) : Quota × Bool :=
+  if cfg.conc then
+    -- concurrent quota (`AtomicSAddWithMaxValuesAllowed`): a slot while fewer than `max` are held
+    let w := q.ws.head?.getD {}
+    if cfg.qmax < (w.cnt : Int) + 1 then (q, false) else (⟨[{ w with cnt := w.cnt + 1 }]⟩, true)
+  else
   let r := chainTry ((cfg.qmax, cfg.win) :: cfg.anc) q.ws now
   (⟨r.1⟩, r.2)
 
@@ -373,6 +380,8 @@ inductive Op
   | tickRelease                -- ... released: re-push, StopProcessing, end of pass; then the TTL watcher runs
   | advance (ms : Nat)         -- the mock clock moves while the loop stands at the gate (no loop timer pending)
   | arriveTick (prio : Nat)    -- a tick whose loop pass runs while an arriving request is inside `queue.Enqueue`
+  | nudge (ms : Nat)           -- the clock moves by less than a tick: no timer fires, nobody is scheduled
+  | tickAfter (ms : Nat)       -- a tick that completes a nudged interval: the clock moves by the REST of the 100 ms
 deriving DecidableEq, Repr
 
 structure Sim where
@@ -426,6 +435,12 @@ def opActs (cfg : Cfg) (x : Sim) : Op → List Act
     repeatActs (.loopStep 0 :: settleActs x.hold x.s.n) 3 ++
     .wScan :: repeatActs (.wStep 0 :: settleActs x.hold x.s.n) (2 * x.s.n + 2)
   | .advance ms => [.advance ms]
+  | .nudge ms => [.advance ms]
+  | .tickAfter ms =>
+    [.advance ms, .wScan] ++
+    repeatActs (.wStep 0 :: settleActs x.hold x.s.n) (2 * x.s.n + 2) ++
+    [.loopFire] ++
+    repeatActs (.loopStep 0 :: settleActs x.hold x.s.n) (6 * (x.s.heap.length + 1) + 2)
   | .arriveTick p =>
     -- clock +100 ms and the watcher first, as in `tick`; then the arrival up to and including its
     -- `Enqueue` (the request is registered BEFORE it is published); then the loop's pass
